@@ -1,28 +1,25 @@
 package scratch
 
 import (
-	"context"
 	"fmt"
+	"os"
+	"strings"
 	"testing"
 
-	"github.com/bufbuild/protocompile/experimental/incremental"
+	"github.com/bufbuild/protocompile/experimental/parser"
+	"github.com/bufbuild/protocompile/experimental/report"
+	"github.com/bufbuild/protocompile/experimental/source"
 )
 
-type q struct{ id int }
-
-func (x q) Key() any { return x }
-func (x q) Execute(t *incremental.Task) (int, error) {
-	panic(fmt.Sprintf("p%d", x.id))
-}
-
 func TestS(t *testing.T) {
-	for i := 0; i < 2000; i++ {
-		exec := incremental.New(incremental.WithParallelism(2))
-		_, _, err := incremental.Run(context.Background(), exec, q{0}, q{1}, q{2})
-		if k := exec.Keys(); len(k) > 0 {
-			fmt.Println("iteration", i, "keys", k, "err", err != nil)
-			return
+	text := os.Getenv("TXT")
+	r := &report.Report{}
+	_, ok := parser.Parse("a.proto", source.NewFile("a.proto", text), r)
+	fmt.Println("ok", ok)
+	for _, d := range r.Diagnostics {
+		fmt.Println(d.Level(), d.Message(), d.Notes())
+		if d.Level() == report.ICE {
+			fmt.Println(strings.Join(d.Debug(), "\n"))
 		}
 	}
-	fmt.Println("never memoized")
 }
